@@ -138,6 +138,7 @@ def check(run):
                 '`cleanup --failed-only`, a repaired retry completes without re-running finished tasks; histories (incl. the follow-up runs) replayed through the Lean model; '
                 'non-trivial = some task depends on a failing one and some does not; distinct by (program, params)')
     drv = X.setup(run, THEOREMS)
+    X.loop_correspondence(run, drv)
     rng = core.rng_for(run.seed, 'c11')
     scratch = core.scratch_dir()
     try:
